@@ -147,4 +147,76 @@ PROPS = {
             "only the library work behind each command is run; cmd/gedcom glue is not",
         ],
     },
+    "C01": {
+        "engine": "stream",
+        "level": "fault_enumeration",
+        "design_ref": "DESIGN.md §5 C01",
+        "technique": "deterministic simulation of the stream seam: Encoder -> simulated writer / bounded pipe with scheduled ends -> simulated reader -> Decoder; writer failure injected at every write call",
+        "level_text": ("For every generated document (built through the public API over the legal alphabet) the writer-fault position is enumerated completely: the k-th Write fails "
+                       "(transient, sticky, short write) for every k, and Encode must either fail or have written text that still decodes to the identical document. Fault-free "
+                       "round trips run under several reader delivery plans (whole, 1-byte, random chunks, zero-byte reads, data+EOF) and through a bounded pipe whose two ends are "
+                       "goroutines scheduled by the seeded scheduler. Documents are sampled by seed."),
+        "level_note": "The forest generator is a sampled workload (no exhaustive enumeration of small forests: that would be another technique). Trusts the simulated reader/writer/pipe stubs.",
+        "rule": ("cases = seeded node forests (all specialised tags, custom and numeric tags, values that look like pointers/levels/tags, duplicate siblings, nested pointers, "
+                 "family-role nodes, depth up to 99, BOM on/off); one evaluation = one decode under a delivery plan, one encode under a write fault, or one simulated pipe run. "
+                 "distinct_nontrivial = distinct (text hash, delivery plan with short reads) pairs plus distinct (text hash, write fault) pairs that fired."),
+        "tiers": {
+            "quick": {"cases": 1600, "wall_s": 75, "seed": 1, "minimise_s": 30},
+            "thorough": {"cases": 200000, "wall_s": 1200, "seed": 1001, "minimise_s": 90},
+        },
+        "probes_wanted": ["nodes", "level>=10"],
+        "shrink_lists": [["stream", "forest"], ["stream", "plans"]],
+        "shrink_scalars": [_set(["stream", "pipe_cap"], 0), _set(["stream", "all_write_faults"], False), _set(["stream", "has_bom"], False)],
+        "components": comp(["io.Writer given to the Encoder: simulated writer (fault plan) or simulated bounded pipe", "io.Reader given to the Decoder: simulated reader (delivery plan)"]),
+        "assumptions": ["documents are sampled by seed; only the write-fault position is enumerated completely per document",
+                        "legal alphabet as stated by the property: tags [A-Za-z0-9_]+, values without line breaks or surrounding white space, pointers without '@'"],
+    },
+    "C02": {
+        "engine": "stream",
+        "level": "exploration",
+        "design_ref": "DESIGN.md §5 C02",
+        "technique": "deterministic simulation of the reader seam: decoded tree compared with an independent reference line-grammar parser under every delivery plan; read error injected at every offset",
+        "level_text": ("Seeded level-walk byte streams x {AllowMultiLine} x {AllowInvalidIndents}, decoded through a simulated reader under whole / 1-byte / random-chunk / "
+                       "zero-byte-read / boundary-inside-BOM-or-CRLF plans and, for streams up to 400 bytes, with a read error at every offset. Oracles: tree == reference model "
+                       "(an independent ~80-line parser of the documented grammar that sees the whole byte string), String() is a fix-point, the verdict is identical under every "
+                       "delivery plan, a read error never yields a document."),
+        "level_note": ("The input dimension is sampled, not enumerated. The generator stays inside the unambiguous part of the grammar (single-digit levels, continuation lines "
+                       "never shaped like a line and never after a record line, role lines only after a FAM record)."),
+        "rule": ("cases = seeded level-walk streams (descend, stay, dedent, new root; CR/LF/CRLF; blank lines; BOM; runs of spaces; xrefs; '@', digits, non-UTF-8 bytes) x 4 "
+                 "option combinations; one evaluation = one decode. distinct_nontrivial = distinct (stream hash, delivery plan with short reads) pairs plus one per stream with "
+                 "read errors enumerated."),
+        "tiers": {
+            "quick": {"cases": 3200, "wall_s": 60, "seed": 1, "minimise_s": 30},
+            "thorough": {"cases": 150000, "wall_s": 1200, "seed": 1001, "minimise_s": 90},
+        },
+        "probes_wanted": ["accepted", "compared_with_reference", "multiline=true,invalid_indents=true", "multiline=false,invalid_indents=false"],
+        "shrink_lists": [["stream", "segments"], ["stream", "plans"]],
+        "shrink_scalars": [_set(["stream", "all_read_errors"], False)],
+        "components": comp(["io.Reader given to the Decoder: simulated reader (delivery plan, error at offset)"]),
+        "assumptions": ["streams are sampled by seed; read-error offsets are enumerated completely for streams up to 400 bytes",
+                        "the reference model is an independent implementation of the grammar stated in the property"],
+    },
+    "C03": {
+        "engine": "stream",
+        "level": "fault_enumeration",
+        "design_ref": "DESIGN.md §5 C03",
+        "technique": "deterministic simulation of the reader seam with fault injection: truncation at every byte offset, read error at every offset, endless zero-byte reads, on adversarial byte streams",
+        "level_text": ("For every generated stream up to 512 bytes truncation (EOF, with and without data in the same call) is injected at every byte offset, for streams up to 256 "
+                       "bytes a read error at every offset, plus stalls (0, nil) at three offsets; streams (random bytes, structure-aware adversarial files, mutated GEDCOM, first "
+                       "line above level 0, long lines) and options are sampled. Oracle: bounded number of reads, document xor error, only the documented indent panic and only "
+                       "without AllowInvalidIndents, parse errors name a line, a read error is never swallowed."),
+        "level_note": "Native fuzzing with a corpus is not part of this technique and is not used. Trusts the simulated reader.",
+        "rule": ("cases = seeded adversarial byte streams x 4 option combinations; one evaluation = one decode under one fault or delivery plan. distinct_nontrivial = distinct "
+                 "(stream, plan, options) triples with short reads plus one per (stream, options) whose truncation offsets were enumerated."),
+        "tiers": {
+            "quick": {"cases": 1200, "wall_s": 75, "seed": 1, "minimise_s": 30},
+            "thorough": {"cases": 100000, "wall_s": 1200, "seed": 1001, "minimise_s": 90},
+        },
+        "probes_wanted": ["document", "parse_error", "injected_error_returned", "tolerated_indent_panic"],
+        "shrink_lists": [["stream", "segments"], ["stream", "plans"]],
+        "shrink_scalars": [_set(["stream", "all_read_errors"], False), _set(["stream", "all_truncations"], False)],
+        "components": comp(["io.Reader given to the Decoder: simulated reader (truncation, error, stall, delivery plan)"]),
+        "assumptions": ["streams are sampled by seed; truncation and read-error offsets are enumerated completely per short stream",
+                        "a reader that panics is outside any contract and is not injected"],
+    },
 }
